@@ -73,6 +73,7 @@ impl ToTokens for ValuePopulator<'_> {
                 // context (a `macro_rules!` argument, say) the `with` path comes from.
                 let errors = quote!(__errors);
                 let fwd_attrs = quote!(__fwd_attrs);
+                let with = super::expr_style(with);
                 quote_spanned!(with.span()=> #errors.handle(#with(#fwd_attrs)))
             }
             None => quote!(::darling::export::Some(__fwd_attrs)),
